@@ -69,6 +69,11 @@ Check(n) ==
   /\ ClMul(sa, sb) = ClMulPure(sa, sb)
   /\ PolyMod(sa, sm) = PolyModPure(sa, sm)
   /\ PolyDiv(sa, sm) = PolyDivPure(sa, sm)
+  /\ PolyInvMod(sa, <<131>>) = PolyInvModPure(sa, <<131>>)      \* modulo z^7 + z + 1
+  /\ Tup(XorV(<<a, b>>, <<b, sa>>)) = Tup(XorVPure(<<a, b>>, <<b, sa>>))
+  /\ Tup(AndV(<<a, b>>, <<b, sa>>)) = Tup(AndVPure(<<a, b>>, <<b, sa>>))
+  /\ Tup(NotV(<<sa, sb>>, 64)) = Tup(NotVPure(<<sa, sb>>, 64))
+  /\ Tup(RotLV(<<sa, sb>>, <<k, 3>>, 64)) = Tup(RotLVPure(<<sa, sb>>, <<k, 3>>, 64))
   \* algebraic sanity of the pure definitions themselves
   /\ (~IsZero(sb) => AddPure(MulPure(DivPure(sa, sb), sb), ModPure(sa, sb)) = NormPure(sa))
   /\ (ModInvPure(sa, sm) # <<>> => ModMulPure(sa, ModInvPure(sa, sm), sm) = ModPure(<<1>>, sm))
